@@ -52,6 +52,20 @@ CLAIMS = {
              "huge ints, is outside). Unverified: constant folding (Optimize.ConstantFolding), Utils.str_to_number and the text "
              "normalisation done by IntNode/FloatNode before the pool is asked, literal emission, get_py_const / string constants.",
         ref="4 C09"),
+    "C10": dict(
+        text="Proof of the escape-decoding kernel of bytes and char literals: Parsing._append_escape_sequence (escape text of symbolic "
+             "content and length, builder calls by contract with a ghost event record) issues exactly the builder call CPython's escape "
+             "rules prescribe - the numeric value of 1-3 octal digits for \\ooo and of two hex digits for \\xhh (int(text, base) "
+             "modelled digit by digit), the character itself for \\' \\\" \\\\, the table entry for \\a \\b \\f \\n \\r \\t \\v, nothing for "
+             "backslash-newline, and the sequence kept literally for every other character (incl. \\N \\u \\U, which are not escapes in "
+             "bytes literals); BytesLiteralBuilder.append_charval appends exactly the byte n % 256 for every n in 0..0o777 (CPython keeps "
+             "the low 8 bits of b'\\777') and UnicodeLiteralBuilder.append_charval exactly chr(n). EXHAUSTIVE: the 7-entry escape table. "
+             "Kernel: these functions; the LZSS string-table compression setting is decided at item level under C12.",
+        note="Trusted: dv Python front end (PSeq string model, int(text, base) closed form for <= 8 digits), z3; the scanner guarantees "
+             "about the shape of escape sequences (Lexicon.py) are preconditions, not proved. NOT covered: str / f-string literals "
+             "(\\N{...}, \\uXXXX, \\UXXXXXXXX, surrogates), prefixes and raw strings, implicit concatenation, p_string_literal's token loop, "
+             "generate_string_constants, the zlib/bz2/zstd settings, very long strings.",
+        ref="4 C10"),
     "C11": dict(
         text="Proof for texts of UNBOUNDED length (symbolic character array + length, Python slicing with clamping, `in` / find on "
              "statically bounded windows) that StringEncoding.split_string_literal either returns the escaped text unchanged or cuts it into "
